@@ -4,14 +4,16 @@
 (* finished states are emitted as complete programs (AST).                     *)
 EXTENDS Ast, TLC, Json
 
-CONSTANT MaxDepth
+CONSTANTS MaxDepth, AllowInvalid    \* AllowInvalid: also place break / continue / return where they are not legal (C16, C03)
 
 Kinds == {"ifT", "ifElseT", "ifElseE", "elif1", "elif2", "while", "fromTo", "fromThru",
           "fromStep", "fromAnon", "fromColl", "fn",
           \* the same constructs with compound (multi-instruction) conditions, bounds and steps
-          "ifX", "whileX", "fromToX", "fromStepX"}
+          "ifX", "whileX", "fromToX", "fromStepX",
+          \* a loop whose constant range is empty: the body is compiled but never runs
+          "fromEmpty"}
 Terms == {"fall", "break", "continue", "ret", "assert", "div0", "oob"}
-LoopKinds == {"while", "fromTo", "fromThru", "fromStep", "fromAnon", "fromColl", "whileX", "fromToX", "fromStepX"}
+LoopKinds == {"while", "fromTo", "fromThru", "fromStep", "fromAnon", "fromColl", "whileX", "fromToX", "fromStepX", "fromEmpty"}
 
 VARIABLES path, term, pad, done
 vars == <<path, term, pad, done>>
@@ -25,7 +27,7 @@ Enter(ctx, k, d) ==
     CASE k = "fn" -> [lv |-> "", inloop |-> FALSE, infn |-> TRUE]
       [] k \in {"while", "whileX"} -> [ctx EXCEPT !.lv = Name("w", d), !.inloop = TRUE]
       [] k \in {"fromTo", "fromThru", "fromStep", "fromColl", "fromToX", "fromStepX"} -> [ctx EXCEPT !.lv = Name("i", d), !.inloop = TRUE]
-      [] k = "fromAnon" -> [ctx EXCEPT !.inloop = TRUE]
+      [] k \in {"fromAnon", "fromEmpty"} -> [ctx EXCEPT !.inloop = TRUE]
       [] OTHER -> ctx
 RECURSIVE CtxAt(_, _, _)
 CtxAt(p, d, ctx) == IF d > Len(p) THEN ctx ELSE CtxAt(p, d + 1, Enter(ctx, p[d], d))
@@ -74,6 +76,7 @@ Build(p, d, t, ctx, padded) ==
       [] k = "fromThru" -> <<From(I(0), I(2), TRUE, <<>>, Name("i", d), body)>> \o after
       [] k = "fromStep" -> <<From(I(-1), I(4), FALSE, <<I(2)>>, Name("i", d), body)>> \o after
       [] k = "fromAnon" -> <<From(I(0), I(2), FALSE, <<>>, "", body)>> \o after
+      [] k = "fromEmpty" -> <<From(I(5), I(5), FALSE, <<>>, "", body)>> \o after
       [] k = "fromColl" -> <<Let(Name("i", d), I(7)),
                              From(I(0), I(3), FALSE, <<>>, Name("i", d), body),
                              Print(V(Name("i", d)))>> \o after
@@ -91,10 +94,10 @@ Prog(p, t, padded) == [body |-> <<Let("one", I(1)), Print(S("S"))>> \o Build(p, 
 Init == path = <<>> /\ term = "" /\ pad \in BOOLEAN /\ done = FALSE
 Extend(k) == /\ ~done /\ Len(path) < MaxDepth
              /\ path' = Append(path, k) /\ UNCHANGED <<term, pad, done>>
-Finish(t) == /\ ~done /\ Len(path) >= 1 /\ TermOk(t, CtxAt(path, 1, Ctx0))
+Finish(t) == /\ ~done /\ Len(path) >= 1 /\ (AllowInvalid \/ TermOk(t, CtxAt(path, 1, Ctx0)))
              /\ term' = t /\ done' = TRUE /\ UNCHANGED <<path, pad>>
 Next == (\E k \in Kinds : Extend(k)) \/ (\E t \in Terms : Finish(t))
 
-EmitCase == done => PrintT("CASE " \o ToJson([path |-> path, term |-> term, pad |-> pad,
+EmitCase == done => PrintT("CASE " \o ToJson([path |-> path, term |-> term, pad |-> pad, valid |-> TermOk(term, CtxAt(path, 1, Ctx0)),
                                                prog |-> Prog(path, term, pad)]))
 =============================================================================
